@@ -113,11 +113,11 @@ def cvs_float(cvs, aff=(0.0, 1.0)):
     return [np.array([aff[0] + aff[1] * flt(g) for g in cv], dtype=float) for cv in cvs]
 
 
-def space_for(cvs, dtype, kind='nonuniform'):
+def space_for(cvs, dtype, kind='nonuniform', degenerate=False):
     cf = cvs_float(cvs)
-    # a one-node axis gets the unit cell around its node (the default would be a degenerate, zero-volume axis)
-    mins = [None if len(c) > 1 else float(c[0]) - 0.5 for c in cf]
-    maxs = [None if len(c) > 1 else float(c[0]) + 0.5 for c in cf]
+    # a one-node axis gets the unit cell around its node, or (degenerate=True) the default zero-extent axis min = max = node
+    mins = [None if (len(c) > 1 or degenerate) else float(c[0]) - 0.5 for c in cf]
+    maxs = [None if (len(c) > 1 or degenerate) else float(c[0]) + 0.5 for c in cf]
     part = odl.nonuniform_partition(*cf, min_pt=mins, max_pt=maxs)
     if kind == 'uniform_discr':
         if not part.is_uniform:
@@ -357,7 +357,8 @@ def make_hist_callable(fn, ndim, conv):
         scalar = lambda x: 0 if x[0] < theta else x[0]             # returns a Python int left of theta
         native = lambda x: np.where(x[0] < theta, 0, x[0]) + 0 * sum(x[k] for k in range(ndim))
     else:
-        terms = terms_of(fn['poly'], False)
+        terms = terms_of(fn['poly'], any(m['c'][1] != [0, 1] for m in fn['poly']))
+        kview = next((k for k, p in enumerate(fn['poly'][0]['e']) if p), 0)      # coordinate returned by the view conventions
 
         def value(x):
             res = 0
@@ -376,7 +377,7 @@ def make_hist_callable(fn, ndim, conv):
     if conv == 'native':
         return lambda x: native(x)
     if conv == 'native_view':            # returns the coordinate array itself (a view of the mesh)
-        return lambda x: x[0]
+        return lambda x: x[kview]
     if conv == 'native_view_x':          # 1-d: returns its argument
         return lambda x: x
     if conv == 'native_view_last':       # N-d: returns the last coordinate array (broadcast by the library)
@@ -400,30 +401,76 @@ def make_hist_callable(fn, ndim, conv):
     raise ValueError(conv)
 
 
+def _snapshot(sp):
+    return {'coord_vectors': [c.copy() for c in sp.grid.coord_vectors], 'meshgrid': [m.copy() for m in sp.meshgrid],
+            'cell_boundary_vecs': [b.copy() for b in sp.partition.cell_boundary_vecs],
+            'min_pt': sp.partition.min_pt.copy(), 'max_pt': sp.partition.max_pt.copy()}
+
+
+def _frame_changed(sp, snap):
+    now = _snapshot(sp)
+    for k, v in snap.items():
+        a, b = (v, now[k]) if isinstance(v, list) else ([v], [now[k]])
+        if len(a) != len(b) or any(x.shape != y.shape or not np.array_equal(x, y) for x, y in zip(a, b)):
+            return k
+    return ''
+
+
+def _overwrite(prev, how):
+    """the caller modifies, in place, the object it was returned"""
+    if prev is None:
+        return
+    try:
+        if how == 'imul':
+            prev *= 2
+        elif how == 'setitem':
+            prev[:] = 7
+        elif how == 'ufunc_out':
+            np.negative(prev, out=prev)
+        else:                               # 'asarray' (and the legacy un-named overwrite)
+            arr = prev.asarray() if hasattr(prev, 'asarray') else prev
+            if arr.flags.writeable:
+                arr[...] = 7
+    except Exception:
+        pass                                # a refused write leaves everything unaffected, which is fine
+
+
 def run_history(obj, hist, conc):
-    """Replays one behaviour: all calls on the SAME function object (and the same spaces). -> list of call records"""
+    """Replays one behaviour: all calls on the SAME function object. Spaces: one per value type ('independent'), all value types
+    derived from ONE base space with astype / complex_space (share the partition: 'siblings'), or an equal space built freshly at
+    every call ('fresh').  -> list of call records (values, grid of the space, frame check, value re-read at the end)"""
     cvs, fn, conv = obj['cvs'], obj['fn'], obj['conv']
     ndim = len(cvs)
     shape = tuple(len(c) for c in cvs)
     f = make_hist_callable(fn, ndim, conv)
-    spaces, sfs = {}, {}
+    mode = conc.get('spaces', 'independent')
+    degen = bool(conc.get('degenerate'))
+    spaces, sfs, snaps = {}, {}, {}
+    base = None
     prev = None
-    calls = []
+    calls, results = [], []
     for c in hist:
-        rec = {'kind': c['kind'], 'dt': c['dt'], 'obs': [], 'err': ''}
+        rec = {'kind': c['kind'], 'dt': c['dt'], 'obs': [], 'obs_end': [], 'grid': cvs, 'frame': '', 'err': ''}
         calls.append(rec)
+        results.append(None)
         if c['kind'] == 'mutate':
-            try:
-                arr = prev.asarray() if hasattr(prev, 'asarray') else prev
-                if arr is not None and arr.flags.writeable:
-                    arr[...] = 7
-            except Exception:
-                pass
+            _overwrite(prev, c.get('how', 'asarray'))
+            for j in range(len(results) - 1):
+                if results[j] is prev:
+                    results[j] = None           # overwritten by its owner: not re-read at the end
             continue
         dt = NP_DT[c['dt']]
         try:
-            if dt not in spaces:
-                spaces[dt] = space_for(cvs, dt)
+            if mode == 'fresh' or dt not in spaces:
+                if mode == 'siblings':
+                    if base is None:
+                        base = space_for(cvs, 'float64', degenerate=degen)
+                    sp = base if dt == 'float64' else (base.complex_space if dt == 'complex128' else base.astype(dt))
+                else:
+                    sp = space_for(cvs, dt, degenerate=degen)
+                spaces[dt] = sp
+                snaps[dt] = _snapshot(sp)
+                sfs.pop(dt, None)
             sp = spaces[dt]
             if c['kind'] == 'element':
                 prev = sp.element(f)
@@ -446,8 +493,18 @@ def run_history(obj, hist, conc):
                 rec['errmsg'] = 'shape %r dtype %s' % (arr.shape, arr.dtype)
                 break
             rec['obs'] = exact_arr(arr.reshape(shape))
+            results[-1] = prev
+            rec['grid'] = [[exact_q(v) for v in cv] for cv in sp.grid.coord_vectors]
+            rec['frame'] = _frame_changed(sp, snaps[dt])
         except Exception as e:
             rec['err'] = type(e).__name__
             rec['errmsg'] = '%s: %s' % (type(e).__name__, str(e)[:160])
             break
+    for rec, r in zip(calls, results):
+        if r is not None and not rec['err']:
+            try:
+                arr = r.asarray() if hasattr(r, 'asarray') else np.asarray(r)
+                rec['obs_end'] = exact_arr(arr.reshape(shape))
+            except Exception:
+                rec['obs_end'] = []
     return calls
